@@ -252,7 +252,7 @@ def oracle(case, impl, spec):
     """the property: characters written = what C writes for the items (reference texts R), position =
     start + number written, both sinks, FormatError on too few arguments; container show = elements' show."""
     si, ss = sections(impl), sections(spec)
-    if '?' in si or not all(k in si for k in 'RSFCE'):
+    if '?' in si or not all(k in si for k in 'RWSFCE'):
         return 'library run did not complete: %s' % impl[-160:]
     if 'S' not in ss:
         return 'specification could not be evaluated: %s' % spec
@@ -260,6 +260,9 @@ def oracle(case, impl, spec):
     S, F, sS, sF = si['S'], si['F'], ss['S'], ss['F']
     if len(S) < 5 or len(F) < 4:
         return 'library run did not complete: %s' % impl[-160:]
+    # the reference itself: one snprintf call on the whole format (when expressible) = the items' texts in a row
+    if 'W' in si and len(si['W']) > 1 and si['W'][1] != '-' and sS[1] == 'ok' and si['W'][1] != sS[4]:
+        return 'snprintf of the whole format writes %s, the items one by one %s' % (si['W'][1], sS[4])
     if S[1] != sS[1]:
         return 'String sink: outcome %s, expected %s' % (S[1], sS[1])
     if F[1] != sF[1]:
@@ -433,7 +436,8 @@ def run(ctx):
         'for %p, Int/Float/String/Array/List/Tuple/Table for %$; start positions 0..length and beyond; too few / too many arguments. '
         'Per case three runs of print_to_with (heap String, File, recording sink) are compared with the reference: per item, libc '
         'snprintf of that ONE specification with the C value the property assigns (a whole-format printf is the concatenation, '
-        'directives being independent), show_to text for %$. Non-trivial = the format contains at least one specification or %$ '
+        'directives being independent; cross-checked by one snprintf call on the whole format whenever all its specifications take '
+        'the same C type), show_to text for %$. Non-trivial = the format contains at least one specification or %$ '
         'and the library run completed; distinct = distinct implementation transcripts.')
     ctx.assumptions += [
         'C text tied to the model by correspondence only (String sink contents/position, File contents/position, recorded format_to/show_to calls)',
